@@ -134,6 +134,22 @@ func RunC06(c *engine.Ctx) {
 				}
 				try(fmt.Sprintf("usage-%d", u), et, key, u, ct, "other-usage")
 			}
+			// dense usage sweep for two lengths: every usage 1..1200 and around the powers of two
+			if l == 0 || l == 17 {
+				var dense []uint32
+				for u := uint32(1); u <= 1200; u++ {
+					dense = append(dense, u)
+				}
+				for k := uint(11); k < 32; k++ {
+					dense = append(dense, 1<<k-1, 1<<k, 1<<k+usage)
+				}
+				for _, u := range dense {
+					if u == usage || (et == rcrypto.RC4 && rcrypto.RC4UsageClass(u) == rcrypto.RC4UsageClass(usage)) {
+						continue
+					}
+					try(fmt.Sprintf("usage-%d", u), et, key, u, ct, "other-usage")
+				}
+			}
 			// unrelated keys
 			for i, k := range otherKeys {
 				try(fmt.Sprintf("other-key-%d", i), et, k, usage, ct, "other-key")
@@ -145,6 +161,16 @@ func RunC06(c *engine.Ctx) {
 					try(fmt.Sprintf("as-etype-%d", et2), et2, key, usage, ct, "other-etype")
 				}
 			}
+			// sequence on ONE buffer: a failed attempt with another key must not spoil the buffer for the right key
+			seq := append([]byte{}, ct...)
+			if out, err := g.DecryptMessage(otherKeys[0], seq, usage); err == nil || len(out) != 0 {
+				c.Violate("mutated", fmt.Sprintf("accepted:et%d:other-key", et), nil, base)
+			}
+			evals++
+			if got, err := g.DecryptMessage(key, seq, usage); err != nil || !expectPlain(et, pt, got) {
+				c.Violate("genuine", fmt.Sprintf("genuine-rejected-after-failed-attempt:et%d", et), map[string]interface{}{"err": fmt.Sprint(err), "buffer_changed": !bytesEqual(seq, ct)}, base)
+			}
+			evals++
 			if l == 17 {
 				c.Sample(map[string]interface{}{"etype": et, "len": l, "genuine_ct": base.CT, "mutations": "every bit flip, truncation, append/prepend, block swap, other usage/key/etype"})
 			}
@@ -157,4 +183,16 @@ func RunC06(c *engine.Ctx) {
 	c.Cov["rejected"] = rejected
 	c.Cov["reference_accepts"] = refAccepts
 	c.Cov["rule"] = "for etype(6) x plaintext length 0..64: every single-bit flip, every truncation, appended/prepended bytes, every swap of two aligned blocks, every other usage of the usage set (rc4: modulo RFC 4757 aliases), 3 unrelated keys, same key under each other etype of equal key length; distinct = (etype, mutation class) pairs that were exercised and rejected"
+}
+
+func bytesEqual(a, b []byte) bool {
+	if len(a) != len(b) {
+		return false
+	}
+	for i := range a {
+		if a[i] != b[i] {
+			return false
+		}
+	}
+	return true
 }
